@@ -14,11 +14,13 @@ pub enum P { X, Y }
 pub enum C { A, B }
 /// Reactive resource type.
 #[derive(Clone, Copy, Debug, PartialEq, Eq, Hash, Serialize, Deserialize, PartialOrd, Ord)]
-pub enum R { R, S }
+pub enum R { R, S,
+    /// A resource no system parameter of the harness touches: it can be removed and re-inserted while reactors for it exist.
+    T }
 
 impl P { pub fn idx(self) -> usize { self as usize } pub const ALL: [P; 2] = [P::X, P::Y]; }
 impl C { pub fn idx(self) -> usize { self as usize } pub const ALL: [C; 2] = [C::A, C::B]; }
-impl R { pub fn idx(self) -> usize { self as usize } pub const ALL: [R; 2] = [R::R, R::S]; }
+impl R { pub fn idx(self) -> usize { self as usize } pub const ALL: [R; 3] = [R::R, R::S, R::T]; }
 
 /// A trigger, naming entities by slot.
 #[derive(Clone, Copy, Debug, PartialEq, Eq, Hash, Serialize, Deserialize, PartialOrd, Ord)]
@@ -209,8 +211,12 @@ pub enum ResAccKind
     CmdInsert,
     /// `world.init_react_resource()` / `commands.init_react_resource()`: nothing happens, the resource exists
     Init,
-    /// `world.get_react_resource_or_insert_with(|| value)`: the resource exists, returns the current value
+    /// `world.get_react_resource_or_insert_with(|| value)`: returns the current value, or inserts and returns `value`
     GetOrInsertWith,
+    /// `world.remove_react_resource()` (resource `T` only)
+    WorldRemove,
+    /// `commands.remove_react_resource()` (resource `T` only)
+    CmdRemove,
 }
 
 /// Entry points of the syscall family.
